@@ -104,6 +104,20 @@ def f4_build(kind, opts, seed=0):
             if isinstance(o, tuple) and (si < len(hist) - 1 or si == 0):
                 s_['short'] = 8 if si % 2 == 0 else 12      # one row of the 8-byte wide buffer / one and a half
         return hist
+    if kind == 'shortmid-slow':
+        # a slow channel (one value per chunk) stored in front of a faster one, in a segment whose last chunk is about half there:
+        # proportionally the slow channel gets no value of that chunk while the one behind it still does
+        hist = []
+        for si, o in enumerate(opts):
+            if isinstance(o, tuple):
+                n, chunks = o
+                s_ = G.seg([(B, ['FULL', 'Int16', 1]), (A, ['FULL', 'Int32', n])], chunks=chunks)
+                if si < len(opts) - 1 or si == 0:
+                    s_['short'] = 2 * n + 1
+                hist.append(s_)
+            else:
+                hist.append(f4_segment('int', o, si))
+        return hist
     if kind in ('shortmid', 'shortmid-il'):
         # segments that are complete by their own offsets but whose raw data stops inside the last chunk - also in the middle of
         # the file ("less data than expected"); what such a chunk means is fixed by the eager read, the oracle is differential
@@ -385,6 +399,12 @@ def f3_files(tier, daqmx=True, scaled=True):
     out.append(('special/short-final-contiguous-3', [G.seg([(B, _full('Int16', 3)), (A, _full('Int32', 2))], chunks=3, short=3)]))
     out.append(('special/short-final-contiguous-9', [G.seg([(B, _full('Int8', 5)), (C, _full('Int16', 2)), (A, _full('Int32', 2))], chunks=2, short=9)]))
     out.append(('special/short-final-interleaved', [G.seg([(B, _full('Int16', 2)), (A, _full('Int32', 2))], chunks=3, interleaved=True, short=5)]))
+    # segments that are complete by their own offsets but whose raw data stops inside the last chunk, NOT in last position
+    for kind_ in ('shortmid', 'shortmid-il', 'shortmid-daqmx', 'shortmid-slow'):
+        if kind_ == 'shortmid-daqmx' and not daqmx:
+            continue
+        out.append(('special/%s' % kind_, f4_build(kind_, ((3, 2), (2, 2)))))
+        out.append(('special/%s-3' % kind_, f4_build(kind_, ((2, 3), 'nod', (2, 1)))))
     out.append(('special/many-segments', [G.seg([(A, _full('Int32', 1)), (B, _full('Int16', 2))])] +
                 [G.seg([], meta=False, chunks=1 + (i % 2)) for i in range(7)]))
     return out
